@@ -628,7 +628,27 @@ def run_altlink(idx, rng, sh):
             if vals != [soffs[a] for a, b in picks]:
                 raise Bad('alt string form without supplementary file is not the raw offset', got=vals)
         sh.sig(('altlink', fmtsel, kind, cls, le, fr))
-    sh.held(n=9)
+    # a chain of links: stripped file -> (checksum-verified) debug file -> supplementary file
+    dbg = emit(P, rng.choice(['plain', 'gabi']), rng, link=link)
+    crc = binascii.crc32(dbg) & 0xffffffff
+    stripped = emit(P, 'plain', rng, drop_debug=True, link=debuglink_section(le, b'main.debug', crc))
+    calls = []
+
+    def chain_loader(name):
+        calls.append(bytes(name))
+        return io.BytesIO(dbg if bytes(name) == b'main.debug' else sup)
+    di = ELFFile(io.BytesIO(stripped), stream_loader=chain_loader).get_dwarf_info()
+    got = []
+    for d in next(di.iter_CUs()).iter_DIEs():
+        if d.tag == 'DW_TAG_variable':
+            t = d.get_DIE_from_attribute('DW_AT_type') if di.supplementary_dwarfinfo is not None else None
+            got.append((d.attributes['DW_AT_name'].value, t.offset if t is not None else None))
+    want = [(('supstr%d' % a).encode(), sdies[b]) for a, b in picks]
+    if calls != [b'main.debug', b'sup.dwz'] or got != want:
+        raise Bad('a debug file reached through .gnu_debuglink does not get its own supplementary file (%s forms)' % fmtsel,
+                  calls=calls, got=got[:2], want=want[:2])
+    sh.sig(('link-chain', fmtsel, cls, le))
+    sh.held(n=10)
     sh.sample({'forms': fmtsel, 'class': cls, 'little_endian': le, 'resolved': [(a.decode(), b, c) for a, b, c in seen[0]]}, kind='altlink')
 
 
